@@ -17,7 +17,7 @@ using namespace vr;
 #define NSUB 3
 #endif
 static RealWorld* W;
-#ifdef MODE_SUBMIT
+#if defined(MODE_SUBMIT) || defined(MODE_LIMITS)
 // link-level oracles (spec: 'override'): signatures and address derivation answer "valid"; everything else is the real code
 namespace altintegration {
 bool Address::isDerivedFromPublicKey(Slice<const uint8_t>) const { return true; }
@@ -197,6 +197,58 @@ extern "C" __attribute__((noinline)) void h_mempool() {
   if (sub[P_V] && !hasV) verif_cover(3);
   if (!pd2.context.empty() || !pd2.vtbs.empty() || !pd2.atvs.empty()) verif_cover(4);
   verif_observe(pd.context.size() * 16 + pd.atvs.size() * 4 + pd.vtbs.size());
+#elif defined(MODE_LIMITS)
+  // Everything connectable is in the pool (VBK 2..5, ATV A1 in VBK3, VTB V in VBK4, ATV A2 in VBK5); the configured block limits are
+  // symbolic (case split): max VBK blocks / VTBs / ATVs per ALT block and the PopData byte limit (around the sizes that matter).
+  // Three rounds of generatePopData -> next block carrying exactly it -> removeAll: every PopData respects every limit, has no
+  // duplicates, is statefully valid (the block activates), and nothing is offered twice.
+  addAltHeader(w, 2, 1);
+  { PopData none; t.acceptBlock(altHash(2), none); ValidationState s; verif_check(t.setState(altHash(2), s), 1); }
+  mineVbk(w, 1);                                                    // VBK 2
+  ATV A1 = makeValidATV(w, 2, 2, 1);                                // in VBK 3
+  VTB V = makeValidVTB(w, 2, 3, 1, 2);                              // in VBK 4 (BTC 2)
+  ATV A2 = makeValidATV(w, 1, 4, 3);                                // in VBK 5
+  { ValidationState st;
+    verif_check(mp.submit<VbkBlock>(w.vbkById[2], true, st).isAccepted(), 2);
+    verif_check(mp.submit<ATV>(A1, true, st).isAccepted(), 3);
+    verif_check(mp.submit<VTB>(V, true, st).isAccepted(), 4);
+    verif_check(mp.submit<ATV>(A2, true, st).isAccepted(), 5); }
+  size_t fullSize;
+  { PopData all; all.context = {w.vbkById[2], w.vbkById[3], w.vbkById[4], w.vbkById[5]}; all.vtbs = {V}; all.atvs = {A1, A2}; fullSize = all.estimateSize(); }
+  size_t ctxOnly;
+  { PopData c; c.context = {w.vbkById[2], w.vbkById[3]}; ctxOnly = c.estimateSize(); }
+  w.ap.mMaxVbkBlocksInAltBlock = verif_choice(1, 4);
+  w.ap.mMaxVTBsInAltBlock = verif_choice(0, 1);
+  w.ap.mMaxATVsInAltBlock = verif_choice(0, 2);
+  { uint32_t k = verif_choice(0, 4); const size_t sizes[5] = {1000000, fullSize, fullSize - 1, ctxOnly + A1.estimateSize(), ctxOnly + A1.estimateSize() - 1}; w.ap.mMaxPopDataSize = (uint32_t)sizes[k]; if (k >= 2) verif_cover(3); }
+  bool seenA1 = false, seenA2 = false, seenV = false; int seenVbk = 0;
+  for (int round = 0; round < 3; round++) {
+    uint64_t before = treesDigest();
+    PopData pd = mp.generatePopData();
+    verif_check(treesDigest() == before, 6);                        // side-effect free
+    verif_check(pd.context.size() <= w.ap.getMaxVbkBlocksInAltBlock(), 7);
+    verif_check(pd.vtbs.size() <= w.ap.getMaxVTBsInAltBlock(), 8);
+    verif_check(pd.atvs.size() <= w.ap.getMaxATVsInAltBlock(), 9);
+    verif_check(pd.estimateSize() <= w.ap.getMaxPopDataSize(), 10);
+    { ValidationState cs; verif_check(checkPopDataForDuplicates(pd, cs), 11); }
+    for (auto& a : pd.atvs) { bool isA1 = a.getId() == A1.getId(), isA2 = a.getId() == A2.getId(); verif_check(isA1 || isA2, 12); verif_check(!(isA1 && seenA1) && !(isA2 && seenA2), 13); seenA1 = seenA1 || isA1; seenA2 = seenA2 || isA2; }
+    for (auto& v : pd.vtbs) { verif_check(v.getId() == V.getId() && !seenV, 14); seenV = true; }
+    seenVbk += (int)pd.context.size();
+    if (round == 0 && w.ap.mMaxPopDataSize == 1000000 && w.ap.mMaxVbkBlocksInAltBlock == 4 && w.ap.mMaxVTBsInAltBlock == 1 && w.ap.mMaxATVsInAltBlock == 2) {
+      verif_check(pd.context.size() == 4 && pd.vtbs.size() == 1 && pd.atvs.size() == 2, 15);   // nothing limits: everything is offered at once
+      verif_cover(1);
+    }
+    uint8_t nb = (uint8_t)(3 + round);
+    addAltHeader(w, nb, (uint8_t)(nb - 1));
+    t.acceptBlock(altHash(nb), pd);
+    ValidationState sx;
+    verif_check(t.setState(altHash(nb), sx), 16);                   // statefully valid on the tip it was generated for
+    mp.removeAll(pd);
+    checkViews(mp, 100);
+  }
+  verif_check(seenVbk <= 4, 17);                                    // no VBK block was offered twice
+  if (seenA1 && seenA2 && seenV && seenVbk == 4 && w.ap.mMaxVbkBlocksInAltBlock < 4) verif_cover(2);
+  verif_observe((uint64_t)seenVbk * 8 + seenA1 * 4 + seenA2 * 2 + seenV);
 #elif defined(MODE_STALE)
   w.vp.mOldBlocksWindow = 1;
   mineVbk(w, 1); mineVbk(w, 2); mineVbk(w, 3); mineVbk(w, 4);     // VBK 2..5
